@@ -68,7 +68,7 @@ RULES = [
     (r'^DelayedFormat<I>::write_to$', ['C15:c15.writeto'], 'C15_delayed_format_items_total', 'every item list, every value; over StrftimeItems: C15_delayed_format_strftime_total'),
     (r'^<DelayedFormat<I> as Display>::fmt$', ['C12:sf.fmt', 'C12:sf.fmtl', 'C13:fp.fmt'], 'C15_delayed_format_strftime_total', 'every format string, every value; fmt::Error by value; the text: C12_format_spec_family'),
     (r'^<ParseError as fmt::Display>::fmt$|^<OutOfRange as|^<ParseMonthError as|^<ParseWeekdayError as|^<RoundingError as|^<OutOfRangeError as',
-     [], 'none: outside C15 stream', 'writes a constant string; no arguments to quantify over'),
+     ['C15:c15.errtext'], 'C15_error_texts_total', 'writes a literal; every value of the type'),
     (r'^<Weekday as FromStr>::from_str$', ['C19:wd.parse', 'C09:tx.parse'], 'C15_weekday_month_from_str_total', ''),
     (r'^<Month as FromStr>::from_str$', ['C19:mo.parse', 'C09:tx.parse'], 'C15_weekday_month_from_str_total', ''),
     (r'^parse::parse$', ['C13:fp.iparse', 'C13:fp.irt'], 'C15_parse_items_total', 'every item list (Fixed::RFC2822 included), every input'),
@@ -92,7 +92,7 @@ RULES = [
     (r'^<Weekday as fmt::Display>::fmt$', ['C19:wd.disp', 'C09:tx.show'], 'owner: C19_wd_display', ''),
     (r'^WeekdaySet::', ['C19:ws.single_day', 'C19:ws.first', 'C19:ws.last'], 'owner: C19_members', ''),
     (r'^<WeekdaySet as fmt::Display>::fmt$', ['C19:ws.disp'], 'owner: C19_set_display', ''),
-    (r'^<WeekdaySet as', [], 'none: outside C15 stream', 'derived-style Debug of the bit set; no op'),
+    (r'^<WeekdaySet as', ['C15:c15.wdset.dbg'], 'C15_wdset_debug_total', 'Debug of the bit set: seven binary digits'),
     # ---- NaiveDate
     (r'^NaiveDate::from_ymd_opt$', ['C01:d.ymd'], 'C15_from_ymd_opt_total', ''),
     (r'^NaiveDate::from_yo_opt$', ['C01:d.yo'], 'C15_from_yo_opt_total', ''),
@@ -111,7 +111,7 @@ RULES = [
     (r'^<NaiveDate as Datelike>::with_', ['C08:d8.with'], 'C15_date_with_total', ''),
     (r'^<NaiveDate as fmt::', ['C09:tx.show'], 'C15_show_date_total', 'every date; the text: C09_shape_date'),
     (r'^<NaiveDate as str::FromStr>::from_str$', ['C09:tx.parse'], 'C15_naive_date_from_str_total', 'every string; the text/value relation: C09_roundtrip_date'),
-    (r'^<IsoWeek as fmt::Debug>::fmt$', [], 'none: outside C15 stream', 'Debug of IsoWeek: two integers through write!; no op'),
+    (r'^<IsoWeek as fmt::Debug>::fmt$', ['C15:c15.isoweek.dbg'], 'C15_isoweek_debug_total', 'Debug of IsoWeek: two integers through write!'),
     # ---- NaiveDateTime
     (r'^NaiveDateTime::parse_from_str$', ['C13:fp.parse', 'C13:fp.rt'], 'C15_ndt_parse_from_str_total', 'every format string, every input'),
     (r'^NaiveDateTime::parse_and_remainder$', ['C15:c15.rem', 'C13:fp.rem'], 'C15_ndt_parse_and_remainder_total', 'every format string, every input'),
